@@ -57,8 +57,9 @@ DFI_SPLITS = ((1.0, 0.0, 0.0), (0.5, 1.5, 0.25))      # (omega_explicit, omega_i
 
 def _cfg(tier):
   q = tier == 'quick'
-  return dict(split_max=5, repeat_max=6, filter_len=3, scan_max=24 if q else 48, scan_ones_max=6 if q else 24,
-              depth=4, weights_len=4, dfi_N=(1, 2, 3), dfi_dt=(0.125,) if q else (0.125, 0.25))
+  return dict(split_max=5, repeat_max=6, filter_len=3, scan_max=24 if q else 48, scan_ones_max=4 if q else 24,
+              depth=4, weights_len=4, dfi_N=(1, 2, 3), dfi_dt=(0.125,) if q else (0.125, 0.25),
+              real_inner_max={'leapfrog_filtered': 5, 'sil3': 3 if q else 5})
 
 
 def bounds(tier):
@@ -68,51 +69,71 @@ def bounds(tier):
               repeated='n=0..%d, every nesting tuple of n (depth<=3)' % c['repeat_max'],
               filter_lists='all ordered lists with repetition, length<=%d, from 3 filters' % c['filter_len'],
               nested_scan_lengths='1..%d: every ordered factorisation (factors>=2), depth<=%d' % (c['scan_max'], c['depth']),
-              nested_scan_unit_factors='1..%d: every tuple with product n containing unit factors, depth<=%d'
-                                       % (c['scan_ones_max'], c['depth']),
+              nested_scan_unit_factors='1..%d: every tuple with product n containing unit factors, depth<=%d%s'
+                                       % (c['scan_ones_max'], c['depth'],
+                                          ' (depth<=%d for n=%d)' % (c['depth'] - 1, c['scan_ones_max']) if tier == 'quick' else ''),
               nested_scan_inputs=['xs=None', 'pytree xs'], gradients=['carry', 'xs'],
               rejected_lengths='0, n-1, n+1, 2n; xs extent n+1',
               weight_vectors='{0,1,-2}^m, m=0..%d' % c['weights_len'],
               dfi=dict(integrators=list(INTEGRATORS), N=list(c['dfi_N']), dt=list(c['dfi_dt']),
                        splits=[list(s) for s in DFI_SPLITS], states=['steady', 'oscillator'],
-                       cutoff=['time_span', 2.0], filter_lists=3),
-              real_steps=list(REAL_STEPS), sim_time='dt in {1/8, 0.1, 1/3, 0.007} x k=0..40 x {float32,float64}')
+                       cutoff=[2.0, 'time_span'] if tier != 'quick' else '2.0 (and time_span for the empty filter list)',
+                       filter_lists=3),
+              real_steps={k: 'outer 1..%d x inner 1..%d x start_with_input' % (c['split_max'], v)
+                          for k, v in c['real_inner_max'].items()}, sim_time='dt in {1/8, 0.1, 1/3, 0.007} x k=0..40 x {float32,float64}')
 
 
 def units(tier, seed):
   c = _cfg(tier)
+  q = tier == 'quick'
   pal = core.palette(seed, tier)
   amps = sorted({a for p in pal for a in p}, key=lambda a: (abs(a), a))
   us = []
   for o in range(1, c['split_max'] + 1):
-    us.append(dict(kind='traj', outer=o, inner_max=c['split_max'], amps=amps))
+    for variant in ('lax', 'nested'):
+      us.append(dict(kind='traj', outer=o, inner_max=c['split_max'], variant=variant, amps=amps))
   for o in range(1, c['split_max'] + 1):
     for name in REAL_STEPS:
-      us.append(dict(kind='real', outer=o, inner_max=c['split_max'], step=name))
+      us.append(dict(kind='real', outer=o, inner_max=c['real_inner_max'][name], step=name))
   us.append(dict(kind='repeated', nmax=c['repeat_max'], amps=amps))
   us.append(dict(kind='filters', length=[0, 1], first=None, amps=amps))
   us.append(dict(kind='filters', length=[2], first=None, amps=amps))
   for first in range(3):
     us.append(dict(kind='filters', length=[3], first=first, amps=amps))
-  for n in range(1, c['scan_max'] + 1):
-    for has_xs in (False, True):
-      us.append(dict(kind='nested', n=n, has_xs=has_xs, ones=False, depths=list(range(1, c['depth'] + 1)), amps=amps))
-  for n in range(1, c['scan_ones_max'] + 1):
-    for has_xs in (False, True):
-      for d in range(2, c['depth'] + 1):
-        big = len(rs.tuples_with_product(n, d)) > 24
-        if tier == 'quick' or not big:
-          us.append(dict(kind='nested', n=n, has_xs=has_xs, ones=True, depths=[d], amps=amps))
-        else:   # split the large unit by the first factor
-          for first in sorted({t[0] for t in rs.tuples_with_product(n, d)}):
-            us.append(dict(kind='nested', n=n, has_xs=has_xs, ones=True, depths=[d], first=first, amps=amps))
+  # nested_checkpoint_scan: (length, xs?) x all nesting tuples, in chunks of <= 8 tuples per unit
+  for ones, nmax in ((False, c['scan_max']), (True, c['scan_ones_max'])):
+    for n in range(1, nmax + 1):
+      depth = c['depth'] if not (ones and q and n == c['scan_ones_max']) else c['depth'] - 1
+      count = len(_nesting_tuples(n, depth, ones))
+      if not count:
+        continue
+      chunks = -(-count // 8)
+      for has_xs in (False, True):
+        for j in range(chunks):
+          us.append(dict(kind='nested', n=n, has_xs=has_xs, ones=ones, depth=depth, chunk=[j, chunks],
+                         eager_depth=2 if q else c['depth'], amps=amps))
   for m in range(0, c['weights_len'] + 1):
     us.append(dict(kind='accum', m=m, amps=amps))
   for name in INTEGRATORS:
     for N in c['dfi_N']:
-      us.append(dict(kind='dfi', integrator=name, N=N, dts=list(c['dfi_dt']), amps=amps[:1]))
+      us.append(dict(kind='dfi', integrator=name, N=N, dts=list(c['dfi_dt']), all_cutoffs=not q, amps=amps[:1]))
   us.append(dict(kind='simtime'))
+  # fixed order, costly units first (the pool hands units out in list order)
+  cost = {'dfi': 0, 'real': 1, 'traj': 2, 'nested': 3, 'filters': 4, 'repeated': 5, 'accum': 6, 'simtime': 7}
+  us.sort(key=lambda u: (cost[u['kind']], -u.get('n', 0) * (3 if u.get('ones') else 1)))
   return us
+
+
+def _nesting_tuples(n, depth, ones):
+  """ones=False: ordered factorisations of n (factors >= 2, the trivial (n,) included); ones=True: the tuples with
+  product n that contain at least one unit factor (and more than one entry)."""
+  out = []
+  for d in range(1, depth + 1):
+    for t in rs.tuples_with_product(n, d):
+      has_one = min(t) == 1 and d > 1
+      if has_one == ones:
+        out.append(t)
+  return out
 
 
 # --------------------------------------------------------------------------------------------------
@@ -129,21 +150,25 @@ def _bytes(tree):
 
 
 def _cmp(rec, got, want, site, key, floor, C=1e4, mult=1.0):
-  """leaf-wise comparison of two pytrees: same structure, same shapes, values within C*eps*scale."""
+  """leaf-wise comparison of two pytrees: same structure, same shapes, values within C*eps*scale.  Stops at the
+  first failing leaf, so that a (site, key) pair carries at most one recorded observation."""
   import jax
   gs, ws = jax.tree_util.tree_structure(got), jax.tree_util.tree_structure(want)
   if not rec.check(gs == ws, site + ':tree_structure', key, {'got': str(gs), 'want': str(ws)}):
     return False
-  ok = True
   for i, (g, w) in enumerate(zip(_np_leaves(got), _np_leaves(want))):
     if not rec.check(g.shape == w.shape, site + ':shape', key, {'leaf': i, 'got': list(g.shape), 'want': list(w.shape)}):
-      ok = False
-      continue
+      return False
     if w.size == 0:
       continue
     scale = max(float(floor), float(np.max(np.abs(w)))) * mult
-    ok = rec.close(g, w, scale=scale, site=site, key=key, C=C, extra={'leaf': i}) and ok
-  return ok
+    if not rec.close(g, w, scale=scale, site=site, key=key, C=C, extra={'leaf': i}):
+      return False
+  return True
+
+
+class _WrongShape(Exception):
+  pass
 
 
 _JX = {}
@@ -227,7 +252,7 @@ def _work_traj(unit, rec):
   for i in range(1, unit['inner_max'] + 1):
     for swi in (False, True):
       for use_post in (False, True):
-        for variant in ('lax', 'nested'):
+        for variant in (unit['variant'],):
           keys = [('traj', o, i, swi, use_post, variant, amp) for amp in unit['amps']]
           if not any(rec.want(k) for k in keys):
             continue
@@ -381,10 +406,11 @@ def _work_filters(unit, rec):
         # (a) three sequential eager applications, every intermediate state compared
         s, r = J['init'](amp), rs.initial_state(amp)
         outs = []
+        ok = True
         for k in range(3):
           s, r = fstep(s), rstep(r)
           outs.append(s)
-          _cmp(rec, s, r, 'filters_applied_in_order_after_every_step', key, abs(amp))
+          ok = ok and _cmp(rec, s, r, 'filters_applied_in_order_after_every_step', key, abs(amp))
         # (b) the filtered step inside a 2 x 2 trajectory
         final, frames = traj(J['init'](amp))
         rfinal, rframes = rs.trajectory(rstep, rs.initial_state(amp), 2, 2, False)
@@ -407,15 +433,7 @@ def _work_nested(unit, rec):
   rxs = rs.scan_xs(n) if has_xs else None
   xs = {k: jnp.asarray(v) for k, v in rxs.items()} if has_xs else None
   argnums = (0, 1) if has_xs else (0,)
-  tuples = []
-  for d in unit['depths']:
-    for t in rs.tuples_with_product(n, d):
-      has_one = min(t) == 1 and d > 1
-      if has_one != unit['ones']:
-        continue
-      if unit.get('first') is not None and t[0] != unit['first']:
-        continue
-      tuples.append(t)
+  tuples = _nesting_tuples(n, unit['depth'], unit['ones'])[unit['chunk'][0]::unit['chunk'][1]]
   if not tuples:
     return
 
@@ -447,6 +465,9 @@ def _work_nested(unit, rec):
 
     def nested_loss(init, xs_, t=t):
       c, ys = ti.nested_checkpoint_scan(body, init, xs_, nested_lengths=t)
+      shapes = [tuple(l.shape) for l in jax.tree_util.tree_leaves(ys)]
+      if shapes != [(n, 2), (n,)]:
+        raise _WrongShape('stacked outputs have shapes %s, expected [(%d, 2), (%d,)]' % (shapes, n, n))
       return J['loss'](c, ys, n), (c, ys)
     vg = jax.jit(jax.value_and_grad(nested_loss, argnums=argnums, has_aux=True))
     for a_i, (amp, key) in enumerate(zip(unit['amps'], keys)):
@@ -455,7 +476,12 @@ def _work_nested(unit, rec):
       R = refs[amp]
       (fl, (fc, fys)), fg = R['flat']
       rl, rc, rys, rg = R['ref']
-      (l, (c, ys)), g = vg(R['init'], xs)
+      try:
+        (l, (c, ys)), g = vg(R['init'], xs)
+      except Exception as e:  # the library refused (or mis-shaped) an admissible nesting: a violation, keep going
+        rec.case(key, transitions=0, outcome=None)
+        rec.fail('nested_scan_raised_or_misshaped', key, {'error': (type(e).__name__ + ': ' + str(e))[:300]})
+        continue
       gscale = max(1.0, max(float(np.max(np.abs(a))) for a in _np_leaves(rg)))
       rec.case(key, transitions=n, outcome=_bytes((c, ys, g)),
                sample={'op': 'nested_checkpoint_scan', 'length': n, 'nested_lengths': list(t), 'xs': has_xs,
@@ -465,10 +491,13 @@ def _work_nested(unit, rec):
       rec.close(float(l), float(fl), scale=max(1.0, abs(rl)), site='nested_loss_vs_flat_scan', key=key)
       _cmp(rec, g, fg, 'nested_grad_vs_flat_scan', key, gscale)
       _cmp(rec, g, rg, 'nested_grad_vs_reverse_sweep', key, gscale)
-      if a_i == 0:
+      if a_i == 0 and len(t) <= unit['eager_depth']:
         # the plain (un-differentiated, un-jitted) call, with an explicit consistent `length`
-        c2, ys2 = ti.nested_checkpoint_scan(body, R['init'], xs, n, nested_lengths=list(t))
-        _cmp(rec, (c2, ys2), (rc, rys), 'nested_eager_values_vs_python_loop', key, abs(amp))
+        try:
+          c2, ys2 = ti.nested_checkpoint_scan(body, R['init'], xs, n, nested_lengths=list(t))
+          _cmp(rec, (c2, ys2), (rc, rys), 'nested_eager_values_vs_python_loop', key, abs(amp))
+        except Exception as e:
+          rec.fail('nested_scan_raised_or_misshaped', key, {'error': (type(e).__name__ + ': ' + str(e))[:300], 'eager': True})
     if rec.want(rkey):
       init = refs[unit['amps'][0]]['init']
       bad = sorted(b for b in {0, n - 1, n + 1, 2 * n} if b >= 0 and b != n)
@@ -480,7 +509,8 @@ def _work_nested(unit, rec):
         except Exception:  # documented: ValueError; any refusal is a rejection
           rejected = True
         outcome.append(rejected)
-        rec.check(rejected, 'inconsistent_length_rejected', rkey, {'length': b, 'nested_lengths': list(t)})
+      rec.check(all(outcome), 'inconsistent_length_rejected', rkey,
+                {'accepted_lengths': [b for b, r in zip(bad, outcome) if not r], 'nested_lengths': list(t)})
       if has_xs:
         long_xs = {k: jnp.concatenate([v, v[:1]]) for k, v in xs.items()}
         try:
@@ -541,7 +571,14 @@ def _work_dfi(unit, rec):
       ustar = np.array([1.0, -0.5]) * amp
       for split in DFI_SPLITS:
         EX, IM = rs.oscillator_matrices(*split)
-        jEX, jIM, jus, eye = jnp.asarray(EX), jnp.asarray(IM), jnp.asarray(ustar), jnp.eye(2)
+        jEX, jIM, jus = jnp.asarray(EX), jnp.asarray(IM), jnp.asarray(ustar)
+
+        def solve2(eta, IMs, v):
+          # (1 - eta*IMs)^-1 v for a 2x2 matrix, by Cramer's rule (eta may be a python float or a traced scalar)
+          a, b = 1.0 - eta * IMs[0, 0], -eta * IMs[0, 1]
+          c_, d = -eta * IMs[1, 0], 1.0 - eta * IMs[1, 1]
+          det = a * d - b * c_
+          return jnp.stack([(d * v[0] - b * v[1]) / det, (a * v[1] - c_ * v[0]) / det])
 
         def make_eq(sign):
           # d/dt u = sign * (EX + IM) (u - u*),  m' = 0 ;  sign = -1 is the time-reversed equation, written out
@@ -549,7 +586,7 @@ def _work_dfi(unit, rec):
           return ti.ImplicitExplicitODE.from_functions(
               lambda s: {'u': sign * (jEX @ (s['u'] - jus)), 'm': jnp.zeros_like(s['m'])},
               lambda s: {'u': sign * (jIM @ (s['u'] - jus)), 'm': jnp.zeros_like(s['m'])},
-              lambda s, eta: {'u': jus + jnp.linalg.solve(eye - eta * sign * jIM, s['u'] - jus), 'm': s['m']})
+              lambda s, eta: {'u': jus + solve2(eta, sign * IM, s['u'] - jus), 'm': s['m']})
         eq_f, eq_b = make_eq(1.0), make_eq(-1.0)
         jf, jb = jax.jit(solver(eq_f, dt)), jax.jit(solver(eq_b, dt))
         damp = lambda v: {'u': jus + 0.5 * (v['u'] - jus), 'm': v['m']}
@@ -564,7 +601,7 @@ def _work_dfi(unit, rec):
           s0 = {'u': jnp.asarray(u0), 'm': jnp.asarray(2.0 * amp)}
           x0 = (s0, s0) if leap else s0
           for fi, flist in enumerate(flists):
-            for cutoff in (span, 2.0):
+            for cutoff in ((2.0, span) if (unit['all_cutoffs'] or fi == 0) else (2.0,)):
               key = ('dfi', name, N, dt, list(split), state_name, fi, cutoff, amp)
               if not rec.want(key):
                 continue
@@ -618,7 +655,7 @@ def _work_simtime(unit, rec):
                          'accumulated': float(t), 'fixed': float(got)})
         rec.close(got.astype(np.float64), np.float64(want), scale=max(dt * k, dt), site='sim_time_snaps_to_k_dt',
                   key=key, C=4, eps=eps)
-        rec.close(got.astype(np.float64), np.float64(rs.fix_sim_time(np.float64(t), dt)), scale=max(dt * k, dt),
+        rec.close(got.astype(np.float64), np.float64(rs.fix_sim_time(t, dtype(dt))), scale=max(dt * k, dt),
                   site='sim_time_vs_reference_rounding', key=key, C=4, eps=eps)
         rec.check(all(np.array_equal(np.asarray(getattr(out, f)), np.asarray(z + j))
                       for j, f in enumerate(('vorticity', 'divergence', 'temperature_variation', 'log_surface_pressure'))),
